@@ -109,6 +109,9 @@ func TestDrive(t *testing.T) {
 	case "redirect":
 		e.Exec = safely(func(op string) string { return execPure(strings.Split(op, "\t")) })
 		RedirectCases(e, r, tier)
+	case "render":
+		e.Exec = safely(func(op string) string { return execPure(strings.Split(op, "\t")) })
+		RenderCases(e, r, tier)
 	case "hist":
 		nh := envInt("FZ_HISTORIES", 40)
 		if tier == "thorough" {
@@ -140,6 +143,8 @@ func execPure(f []string) string {
 		return execHMAC(f)
 	case "redirect":
 		return execRedirect(f)
+	case "render":
+		return execRender(f)
 	}
 	return "bad-op"
 }
